@@ -158,12 +158,62 @@ def check_comment(ctx, x, cprime, y):
     return a, out
 
 
+# Re-entrant use: a template_fn / post_template_fn hook that itself calls ctx.parse() or ctx.expand() while the outer
+# parse() is running its expansion.  The outer result must be what it is with a passive hook, and the nested expand() must
+# give what a top-level expand() of the same text gives.
+RE_CONTENTS = ["----", ";a:b", " x", "*x", "[[a]]", "{{a}}", "''i''", "a_b", "<b>", "=h="]
+RE_MODES = [("expand_all", {"expand_all": True}), ("pre_expand+additional", {"pre_expand": True, "additional_expand": {"a"}}),
+            ("additional", {"additional_expand": {"a"}})]
+
+
+def check_reentrant(ctx, c, label, mode, hook_kind, where):
+    text = "{{a}}\n<nowiki>" + c + "</nowiki>\nz" if where == "before" else "p\n<nowiki>" + c + "</nowiki>{{a}}"
+    nested = []
+
+    def passive(name, args, *exp):
+        return None
+
+    def active(name, args, *exp):
+        if hook_kind == "nested_parse":
+            ctx.parse("q ''r''")
+        else:
+            nested.append(ctx.expand("<nowiki>" + c + "</nowiki>"))
+        return None
+
+    out = []
+    ctx.start_page("Tt")
+    want = dump(ctx.parse(text, template_fn=passive, **mode))
+    for slot in ("template_fn", "post_template_fn"):
+        ctx.start_page("Tt")
+        try:
+            got = dump(ctx.parse(text, **{slot: active}, **mode))
+        except Exception as ex:
+            got = "EXC " + type(ex).__name__ + ": " + str(ex)[:80]
+        if got != want:
+            out.append(("parse_with_reentrant_hook:" + label, got, want))
+    if hook_kind == "nested_expand":
+        ctx.start_page("Tt")
+        top = ctx.expand("<nowiki>" + c + "</nowiki>")
+        if any(n != top for n in nested):
+            out.append(("nested_expand_quotes_exactly:" + label, nested[:2], top))
+    return text, out
+
+
 def work(payload, skip, report):
     acc = Acc(PROP)
     kind = payload[0]
     ctx = make_ctx()
     i = 0
-    if kind == "nw":
+    if kind == "re":
+        for c, (label, mode), hk, where in itertools.product(RE_CONTENTS, RE_MODES, ("nested_parse", "nested_expand"), ("before", "after")):
+            report(i)
+            i += 1
+            text, out = check_reentrant(ctx, c, label, mode, hk, where)
+            acc.case()
+            for oracle, obs, exp in out:
+                acc.violation(oracle, {"input": text, "content": c, "mode": label, "hook": hk, "reentrant": True}, obs, exp)
+        acc.sample({"input": "{{a}}\n<nowiki>----</nowiki>\nz", "hook": "nested_parse"})
+    elif kind == "nw":
         _, alpha, prefix, depth = payload
         alphabet = NW_TOKENS if alpha == "T" else NW_CORE
         for rest in itertools.product(alphabet, repeat=depth - len(prefix)):
@@ -225,6 +275,11 @@ def replay(case):
             _, out = check_nowiki(ctx, case["c"], case["embedding"])
         elif "comment" in case:
             _, out = check_comment(ctx, case["x"], case["comment"], case["y"])
+        elif case.get("reentrant"):
+            out = []
+            for (label, mode), where in itertools.product(RE_MODES, ("before", "after")):
+                if label == case["mode"]:
+                    out += check_reentrant(ctx, case["content"], label, mode, case["hook"], where)[1]
         else:
             return None  # placeholder inputs hang; not replayable in-process
     finally:
@@ -248,6 +303,7 @@ def main(run):
         chunks.append(("cm", x, CM_PAIR_Q if q else CM_PAIR_T))
     for t in PLACEHOLDER_INPUTS:
         chunks.append(("ph", t))
+    chunks.append(("re",))
     done = 0
     for cid, acc, hung in run_chunks(work, chunks, nproc=run.nproc, case_timeout=6):
         run.acc.merge(acc)
